@@ -28,6 +28,15 @@ for the parameters; any other argument is first bound to a fresh local.
 Locals of the helper that collide with names of the caller are renamed.
 Helpers whose every call was inlined and that are private (leading
 underscore or nested) are removed from the module.
+
+Generator helpers (a block of a loop extracted into ``def items(): ...
+yield x``) are inlined where the whole stream is consumed on the spot:
+``for T in g(..): BODY`` (no break / continue / else at that level),
+``recv.update(g(..))`` / ``recv.extend(g(..))``, ``x = list(g(..))`` /
+``set(g(..))`` and ``yield from g(..)``.  Each ``yield E`` of the helper
+becomes ``T = E; BODY`` (respectively ``recv.add(E)``, ``recv.append(E)``,
+``yield E``).  The helper must yield only in statement position, must not
+return a value and must not read the receiver it feeds.
 """
 
 from __future__ import annotations
@@ -199,6 +208,7 @@ class Helper:
         self.body = _fold_early_returns(live(_strip_doc(node.body), node))
         self.expr = None       # expression helpers
         self.stmts = None      # statement helpers: (stmts, return expr|None)
+        self.gen = False       # generator helper (inlined at consuming sites)
         self.ok = self._classify()
         self.inlined = 0
         self.left = 0
@@ -211,6 +221,9 @@ class Helper:
             return False
         if not all(_simple(d) for d in self.defaults.values()):
             return False
+        if any(isinstance(x, (ast.Yield, ast.YieldFrom))
+               for x in ast.walk(n)):
+            return self._classify_generator()
         for x in ast.walk(n):
             if x is n:
                 continue
@@ -251,6 +264,35 @@ class Helper:
                                            ctx=ast.Load()))
             return True
         return self.expr is not None
+
+    def _classify_generator(self):
+        n = self.node
+        stmt_yields = set()
+        for x in ast.walk(n):
+            if isinstance(x, ast.Expr) and isinstance(x.value, ast.Yield) \
+                    and x.value.value is not None:
+                stmt_yields.add(id(x.value))
+        for x in ast.walk(n):
+            if x is n:
+                continue
+            if isinstance(x, (ast.YieldFrom, ast.FunctionDef, ast.Lambda,
+                              ast.AsyncFunctionDef, ast.ClassDef, ast.Global,
+                              ast.Nonlocal, ast.Await, ast.Try, ast.With)):
+                return False
+            if isinstance(x, ast.Yield) and id(x) not in stmt_yields:
+                return False
+            if isinstance(x, ast.Call) and isinstance(x.func, ast.Name) and \
+                    x.func.id == n.name:
+                return False
+        if self.is_method and (not self.params or self.params[0] != "self"):
+            return False
+        # returns: only bare ones, and those were folded into if/else
+        if any(isinstance(x, ast.Return) for st in self.body
+               for x in ast.walk(st)):
+            return False
+        self.gen = True
+        self.stmts = (self.body, None)
+        return True
 
     def _as_expr(self, body):
         if len(body) == 1 and isinstance(body[0], ast.Return) and \
@@ -326,6 +368,32 @@ class _Subst(ast.NodeTransformer):
                      {k: v for k, v in self.rename.items() if k not in bound})
         node.body = sub.visit(node.body)
         return node
+
+
+def _loop_level_jumps(body):
+    """break / continue statements that belong to the loop whose body this
+    is (not to a nested loop)."""
+    out = []
+
+    def rec(stmts):
+        for st in stmts:
+            if isinstance(st, (ast.Break, ast.Continue)):
+                out.append(st)
+            elif isinstance(st, (ast.For, ast.While, ast.AsyncFor)):
+                rec(st.orelse)
+            elif isinstance(st, (ast.FunctionDef, ast.AsyncFunctionDef,
+                                 ast.ClassDef)):
+                continue
+            else:
+                for field in ("body", "orelse", "finalbody"):
+                    sub = getattr(st, field, None)
+                    if isinstance(sub, list):
+                        rec(sub)
+                if isinstance(st, ast.Try):
+                    for hd in st.handlers:
+                        rec(hd.body)
+    rec(body)
+    return out
 
 
 def _stored_names(nodes):
@@ -542,6 +610,10 @@ class Inliner:
             if isinstance(st, ast.Match) if hasattr(ast, "Match") else False:
                 for c in st.cases:
                     c.body = self._rewrite_block(c.body, chain, cls)
+            g = self._generator_site(st, chain, cls)
+            if g is not None:
+                out.extend(g)
+                continue
             call = None
             kind = None
             if isinstance(st, ast.Expr) and isinstance(st.value, ast.Call):
@@ -556,7 +628,7 @@ class Inliner:
             if call is not None:
                 h = self._resolve(call, chain, cls)
                 if h is not None and h.ok and h.stmts is not None and \
-                        h.node is not caller:
+                        not h.gen and h.node is not caller:
                     inst = self._instantiate(h, call, caller)
                     if inst is not None:
                         prelude, nb, ret = inst
@@ -591,6 +663,131 @@ class Inliner:
                 out.append(st)
         return out
 
+    # ---- generator helpers
+    def _gen_helper(self, e, chain, cls):
+        if not isinstance(e, ast.Call):
+            return None
+        h = self._resolve(e, chain, cls)
+        if h is not None and h.ok and h.gen and h.node is not chain[-1]:
+            return h
+        return None
+
+    def _generator_site(self, st, chain, cls):
+        """Replacement statements for a statement that consumes the whole
+        stream of a generator helper, else None."""
+        caller = chain[-1]
+        call = None
+        emit = None     # yield value expr -> [stmts]
+        pre, post = [], []
+
+        def loc(n):
+            return ast.copy_location(n, st)
+
+        def mentions(nodes, name):
+            return any(isinstance(x, ast.Name) and x.id == name
+                       for nd in nodes for x in ast.walk(nd))
+
+        if isinstance(st, ast.For) and not st.orelse and \
+                self._gen_helper(st.iter, chain, cls):
+            lvl = _loop_level_jumps(st.body)
+            if lvl:
+                return None
+            if any(isinstance(x, (ast.Yield, ast.YieldFrom, ast.Return))
+                   for b in st.body for x in ast.walk(b)) and False:
+                return None
+            call = st.iter
+            body, target = st.body, st.target
+
+            def emit(v):
+                a = loc(ast.Assign(targets=[copy.deepcopy(target)], value=v))
+                return [a] + [copy.deepcopy(b) for b in body]
+        elif isinstance(st, ast.Expr) and isinstance(st.value, ast.Call) \
+                and isinstance(st.value.func, ast.Attribute) \
+                and st.value.func.attr in ("update", "extend") \
+                and len(st.value.args) == 1 and not st.value.keywords \
+                and _simple(st.value.func.value) \
+                and self._gen_helper(st.value.args[0], chain, cls):
+            call = st.value.args[0]
+            recv = st.value.func.value
+            meth = "add" if st.value.func.attr == "update" else "append"
+
+            def emit(v):
+                return [loc(ast.Expr(value=ast.Call(
+                    func=ast.Attribute(value=copy.deepcopy(recv), attr=meth,
+                                       ctx=ast.Load()),
+                    args=[v], keywords=[])))]
+        elif isinstance(st, ast.Expr) and isinstance(
+                st.value, ast.YieldFrom) and self._gen_helper(
+                    st.value.value, chain, cls):
+            call = st.value.value
+
+            def emit(v):
+                return [loc(ast.Expr(value=ast.Yield(value=v)))]
+        elif isinstance(st, ast.Assign) and len(st.targets) == 1 and \
+                isinstance(st.targets[0], ast.Name) and isinstance(
+                    st.value, ast.Call) and isinstance(
+                        st.value.func, ast.Name) and st.value.func.id in (
+                            "list", "set") and len(st.value.args) == 1 \
+                and not st.value.keywords and self._gen_helper(
+                    st.value.args[0], chain, cls):
+            call = st.value.args[0]
+            nm = st.targets[0].id
+            if mentions([call], nm):
+                return None
+            kind = st.value.func.id
+            meth = "append" if kind == "list" else "add"
+            pre = [loc(ast.Assign(
+                targets=[ast.Name(id=nm, ctx=ast.Store())],
+                value=(ast.List(elts=[], ctx=ast.Load()) if kind == "list"
+                       else ast.Call(func=ast.Name(id="set", ctx=ast.Load()),
+                                     args=[], keywords=[]))))]
+
+            def emit(v):
+                return [loc(ast.Expr(value=ast.Call(
+                    func=ast.Attribute(value=ast.Name(id=nm, ctx=ast.Load()),
+                                       attr=meth, ctx=ast.Load()),
+                    args=[v], keywords=[])))]
+        if call is None:
+            return None
+        h = self._gen_helper(call, chain, cls)
+        n_y = sum(1 for x in ast.walk(h.node) if isinstance(x, ast.Yield))
+        if isinstance(st, ast.For) and n_y > 1 and len(st.body) > 6:
+            return None
+        inst = self._instantiate(h, call, caller)
+        if inst is None:
+            return None
+        prelude, nb, _ret = inst
+
+        class Y(ast.NodeTransformer):
+            def visit_Expr(self, node):
+                if isinstance(node.value, ast.Yield):
+                    return emit(node.value.value)
+                return node
+
+            def visit_FunctionDef(self, node):
+                return node
+        new = []
+        for b in nb:
+            r = Y().visit(b)
+            new.extend(r if isinstance(r, list) else [r])
+        # the helper body must not touch the receiver it feeds (the stream
+        # was lazy: interleaving would differ) - conservative name test
+        if isinstance(st, ast.Expr) and isinstance(st.value, ast.Call):
+            root = st.value.func.value
+            while isinstance(root, (ast.Attribute, ast.Subscript)):
+                root = root.value
+            if isinstance(root, ast.Name) and root.id != "self" and \
+                    mentions(h.node.body, root.id) and root.id not in \
+                    h.params:
+                return None
+        h.inlined += 1
+        self.applied.append((h.q, getattr(caller, "name", "?"), st.lineno))
+        res = pre + list(prelude) + new + post
+        for x in res:
+            ast.fix_missing_locations(x)
+        return self._rewrite_block(res, chain, cls) if self._depth_ok() \
+            else res
+
     _depth = 0
 
     def _depth_ok(self):
@@ -608,7 +805,8 @@ class Inliner:
             def visit_Call(self, node):
                 self.generic_visit(node)
                 h = me._resolve(node, chain, cls)
-                if h is not None and h.ok and h.node is not caller:
+                if h is not None and h.ok and not h.gen and \
+                        h.node is not caller:
                     e = me._instantiate_expr(h, node, caller)
                     if e is not None:
                         h.inlined += 1
